@@ -25,6 +25,7 @@ package metrics
 import (
 	"fmt"
 	"runtime"
+	"sort"
 	"sync"
 	"sync/atomic"
 	"time"
@@ -489,9 +490,17 @@ func (mc *Collector) metricKey(name string, tags map[string]string) string {
 		return name
 	}
 
+	// Sort tag names so that the same tag set always yields the same key,
+	// whatever order the map happens to be iterated in.
+	names := make([]string, 0, len(tags))
+	for k := range tags {
+		names = append(names, k)
+	}
+	sort.Strings(names)
+
 	key := name
-	for k, v := range tags {
-		key += ":" + k + "=" + v
+	for _, k := range names {
+		key += ":" + k + "=" + tags[k]
 	}
 	return key
 }
